@@ -37,6 +37,11 @@ def step (st : St) (toks : List String) : St × String :=
     match unhex i, unhex s with
     | some i, some s => ({ st with acfg := { ident := i, secret := s, H := Sha1.sha1 }, aio := {} }, "ok")
     | _, _ => (st, "bad-op")
+  | ["a.reset", i, s, retry, loss] =>     -- delays measured on the real session by the harness
+    match unhex i, unhex s, retry.toNat?, loss.toNat? with
+    | some i, some s, some r, some l =>
+      ({ st with acfg := { ident := i, secret := s, H := Sha1.sha1, retryDelay := r, lossDelay := l }, aio := {} }, "ok")
+    | _, _, _, _ => (st, "bad-op")
   | ["t.reset", i, s] =>
     match unhex i, unhex s with
     | some i, some s =>
